@@ -8,7 +8,7 @@ from sa.common import fn_construct
 from sa.model import AnalysisError, load_program
 from sa.protocol import ProtocolModel
 from sa.report import Check, main
-from sa.values import Const, DictVal, EnumVal, Obj, SeqVal, Sym, TypeRef
+from sa.values import NONE, Const, DictVal, EnumVal, Obj, SeqVal, Sym, TypeRef
 
 PID = "C15"
 
@@ -280,6 +280,64 @@ def build() -> Check:
                     ok = ok or (covers and raises)
         ck.ob("R7.failure-becomes-execution-error", fn_construct(f), ok, f"{fname}: an exception of the active serdes is not converted to ExecutionError")
         ck.ob("R7.default-serdes", fn_construct(f), "or EXTENDED_TYPES_SERDES" in ast.unparse(f.node), f"{fname}: the default is not the extended-types serdes")
+    # R9 the batch-result envelope: what BatchItem/BatchResult.to_dict write is what from_dict rebuilds, for every item value
+    # (the value position holds arbitrary user results: no truthiness test, default or conversion may sit between the wire and the field)
+    models = prog.module("concurrency.models")
+    bi_cls, br_cls = models.classes["BatchItem"], models.classes["BatchResult"]
+    bis = models.classes["BatchItemStatus"]
+    for cls_, m in ((bi_cls, "to_dict"), (bi_cls, "from_dict"), (br_cls, "to_dict"), (br_cls, "from_dict")):
+        if m not in cls_.methods:
+            raise AnalysisError(f"{cls_.name}.{m} not found")
+
+    def item_self(it, state):
+        o = Obj(bi_cls, label="item")
+        o.fields.update(index=Sym("i.index", TypeRef(prim="int")), status=Sym("i.status", TypeRef(classes=(bis.fq,))), result=Sym("i.result"), error=NONE)
+        return o
+
+    wr = pm.run_function(bi_cls.methods["to_dict"], item_self, None, cell=("BatchItem.to_dict", ""))
+    wire = None
+    badw = []
+    for t in wr:
+        if t.outcome != "return" or not isinstance(t.value, DictVal):
+            badw.append(f"to_dict gives {t.value.key() if t.outcome == 'return' else t.exc_class()}")
+            continue
+        wire = t.value
+        if "result" not in wire.items or wire.items["result"].key() != "i.result":
+            badw.append(f"the item value is written as {wire.items.get('result').key() if 'result' in wire.items else 'nothing'} under pc {list(t.pc)}")
+        if "index" not in wire.items or wire.items["index"].key() != "i.index":
+            badw.append("the item index is not written as is")
+    ck.ob("R9.batch-item-written-as-is", fn_construct(bi_cls.methods["to_dict"]), not badw and len(wr) == 1 and wire is not None, "; ".join(badw) or f"{len(wr)} paths")
+    if wire is not None:
+        rd = pm.run_function(bi_cls.methods["from_dict"], None, lambda it, state: {"data": DictVal(dict(wire.items))}, cell=("BatchItem.from_dict", ""))
+        badr = []
+        for t in rd:
+            v = t.value if t.outcome == "return" else None
+            if not (isinstance(v, Obj) and v.cls_name == "BatchItem"):
+                badr.append(f"from_dict gives {v.key() if v is not None else t.exc_class()}")
+                continue
+            if v.fields.get("result", NONE).key() != "i.result":
+                badr.append(f"the item value comes back as {v.fields.get('result', NONE).key()} when {['%s->%s' % kv for kv in t.pc]} "
+                            "(a legal value such as 0, False, '' or [] would not round-trip)")
+            if v.fields.get("index", NONE).key() != "i.index":
+                badr.append(f"the item index comes back as {v.fields.get('index', NONE).key()}")
+            if "i.status" not in v.fields.get("status", NONE).key():
+                badr.append(f"the item status comes back as {v.fields.get('status', NONE).key()}")
+        ck.ob("R9.batch-item-read-as-is", fn_construct(bi_cls.methods["from_dict"]), not badr and rd, "; ".join(badr[:2]) or f"{len(rd)} paths")
+
+    def h_item_from(it, fn, sv, a, k, n):
+        return Sym(f"item<{(a[0] if a else k.get('data', NONE)).key()}>", TypeRef(classes=(bi_cls.fq,)))
+
+    rdb = pm.run_function(br_cls.methods["from_dict"], None,
+                          lambda it, state: {"data": DictVal({"all": SeqVal("list", [Sym("d0"), Sym("d1")]), "completionReason": Sym("w.reason", TypeRef(prim="str"))})},
+                          cell=("BatchResult.from_dict", ""), extra_hooks={bi_cls.methods["from_dict"].fq: h_item_from}, loop_iters=3)
+    badb = []
+    for t in rdb:
+        v = t.value if t.outcome == "return" else None
+        items = v.fields.get("all") if isinstance(v, Obj) else None
+        got = [x.key() for x in items.items] if isinstance(items, SeqVal) else None
+        if got != ["item<d0>", "item<d1>"]:
+            badb.append(f"two wire items are rebuilt as {got if got is not None else (v.key() if v is not None else t.exc_class())}")
+    ck.ob("R9.batch-items-rebuilt-in-order", fn_construct(br_cls.methods["from_dict"]), not badb and rdb, "; ".join(badb[:2]) or f"{len(rdb)} paths")
     return ck
 
 
